@@ -65,7 +65,9 @@ void NameSet::add(DataKey& p_key, const char* str)
       char* tmp = &(mem[idx]);
       memused  += int(strlen(str)) + 1;
 
-      spxSnprintf(tmp, SPX_MAXSTRLEN, "%s", str);
+      // room for the whole name has been reserved above; a shorter limit would silently truncate long names and make
+      // distinct names collide
+      spxSnprintf(tmp, strlen(str) + 1, "%s", str);
       *(set.create(p_key)) = idx;
       Name memname(tmp);
       hashtab.add(memname, p_key);
@@ -180,7 +182,7 @@ void NameSet::memPack()
    for(i = 0; i < num(); i++)
    {
       const char* t = &mem[set[i]];
-      spxSnprintf(&newmem[newlast], SPX_MAXSTRLEN, "%s", t);
+      spxSnprintf(&newmem[newlast], strlen(t) + 1, "%s", t);
       set[i] = newlast;
       newlast += int(strlen(t)) + 1;
    }
